@@ -11,7 +11,6 @@ import (
 	"github.com/buildbuildio/pebbles/planner"
 	"github.com/buildbuildio/pebbles/requests"
 	"github.com/buildbuildio/pebbles/simhook"
-	"github.com/gobwas/ws/wsutil"
 )
 
 type subscriptionEntry struct {
@@ -173,7 +172,7 @@ func (se *subscriptionEntry) Listen(conn net.Conn) {
 			if err != nil {
 				return
 			}
-			if err := wsutil.WriteServerText(conn, bResp); err != nil {
+			if err := writeServerText(conn, bResp); err != nil {
 				return
 			}
 		case <-se.closeCh:
